@@ -282,7 +282,7 @@ class Typed:
         if k < 0.8:
             return ('bin', '+', A.num(str(r.randrange(0, max(1, hi - 1)))), A.num(pick(r, ('0', '1'))))
         e = self.num(min(d - 1, 1))
-        if e[0] == 'lit':
+        if e[0] in ('lit', 'const') or (e[0] == 'un' and e[2][0] in ('lit', 'const')):
             # a literal index must stay within a fixed length (it is checked against the schema)
             return A.num(str(r.randrange(0, hi)))
         return e
